@@ -45,8 +45,9 @@ def gen_case(rng):
   for _ in range(nops):
     r = rng.random()
     if r < 0.28:   # macro definition
-      name = rng.choice(MACROS)
-      rr = rng.random()
+      # now and then a macro named like a constant (or like the abbreviation of one): `%X` still means the constant
+      name = rng.choice(MACROS) if rng.random() < 0.8 else rng.choice(['X', 'Y', 'Z'])
+      rr = rng.random() if name in MACROS else 0.9
       if rr < 0.2:
         val = {'ref': [rng.choice([[], ['a']]), rng.choice(targets), True]}
       elif rr < 0.3:
